@@ -240,3 +240,32 @@ Example C10_script_nonvacuous :
   (let r := session Examples.ex_env 20 (ex_steps ++ [CExit]) (Examples.ex_dbg []) Examples.ex_state 0 0 0 in
    sr_kind r = 7 /\ sr_execs r = 3 /\ R (sr_state r) 0 = 3).
 Proof. split; [exact ex_steps_resuming|]. split; [exact ex_steps_ref|exact ex_steps_session]. Qed.
+
+(** The property's scripts in full: stepping commands AND `break add a` / `break remove a` in any
+    order.  The reference ([ref_script2]) carries its breakpoint set along: a breakpoint command
+    changes the set exactly as C11/C13 say (refused outside user space), a stepping command runs
+    under the set as it is then.  The session ends with `exit` at the reference's state, after the
+    reference's number of instructions, holding the reference's breakpoint set. *)
+Theorem C10_script_breakpoints : forall env fuelR cs d st,
+  Forall stepping cs -> d_status d = WaitForAction ->
+  match ref_script2 (e_feat env) fuelR cs (d_bps d) st with
+  | (PEPaused st' k, bps') =>
+      exists j, forall fuel,
+        let r := session env (j + fuel) (cs ++ [CExit]) d st 0 0 0 in
+        ends_like r 7 0 st' (N.of_nat k) /\ match sr_dbg r with Some d' => d_bps d' = bps' | None => False end
+  | (PEStopped kind code s k, _) =>
+      exists j, forall fuel, ends_like (session env (j + fuel) (cs ++ [CExit]) d st 0 0 0) kind code s (N.of_nat k)
+  | (PEFuel, _) => True
+  end.
+Proof. exact script2_exit. Qed.
+Print Assumptions C10_script_breakpoints.
+
+Example C10_script_breakpoints_nonvacuous :
+  Forall stepping ex_steps2 /\
+  match ref_script2 false 20 [CBreakAdd (MAddr 12290); CContinue] [] Examples.ex_state,
+        ref_script2 false 20 ex_steps2 [] Examples.ex_state with
+  | (PEPaused s1 k1, b1), (PEPaused s2 k2, b2) =>
+      k1 = 2%nat /\ s_pc s1 = 12290 /\ b1 = [(12290, false)] /\ k2 = 3%nat /\ at_halt s2 = true /\ b2 = []
+  | _, _ => False
+  end.
+Proof. split; [exact ex_steps2_stepping|exact ex_steps2_ref]. Qed.
